@@ -72,7 +72,8 @@ pub fn explore(ctx: &Ctx) {
             i += 1;
         }
     }
-    ctx.alphabet("A_sites", json!({"count": sites_a.len(), "lats": lats, "zones_lon_gmt": zs.len(), "elevations": elevs}));
+    sites_a.extend(off_lattice_sites(quick, 60.0));
+    ctx.alphabet("A_sites", json!({"off_lattice_sites": off_lattice_sites(quick, 60.0), "count": sites_a.len(), "lats": lats, "zones_lon_gmt": zs.len(), "elevations": elevs}));
     ctx.alphabet("A_dates", json!({"range": "1600-01-01..2399-12-31", "count": all.len()}));
     let pa = params_conv(Method::Mwl);
     par_jobs(ctx, &sites_a, |site, l| {
